@@ -70,6 +70,16 @@ func (w *CompileWL) sources() map[string]string {
 	return m
 }
 
+// userSources is sources() without the descriptor.proto override (the
+// experimental compiler gets descriptor.proto from source.WKTs()).
+func (w *CompileWL) userSources() map[string]string {
+	m := map[string]string{}
+	for _, f := range w.Files {
+		m[f.Name] = f.Text
+	}
+	return m
+}
+
 func (w *CompileWL) graph() map[string][]string {
 	m := map[string][]string{}
 	for _, f := range w.Files {
